@@ -566,7 +566,8 @@ def run(ctx):
 	ctx.assume("a tick racing a POWEROFF may still send / report what it had already taken out of the queue")
 	r = ctx.rng("c03")
 	for i in range(ctx.scale(700, 60000)):
-		sequential(ctx, ctx.case_rng("history", i), i)
+		with common.case_watchdog(ctx, "sequential", {"case": i}, first = 60, second = 60):
+			sequential(ctx, ctx.case_rng("history", i), i)
 		if ctx.too_many() or ctx.time_left() < 0:
 			break
 	ctx.current_case = None
